@@ -239,7 +239,7 @@ def case_alu(case):
 # ------------------------------------------------------------------ gemmx through the real pipeline
 
 
-def gemmx_src(M, N, K, i8out, qmac, rescale, rp=(3, -4, 127, -128)):
+def gemmx_src(M, N, K, i8out, qmac, rescale, rp=(3, -4, 127, -128), bias=False):
     zp = ", %zpa, %zpb" if qmac else ""
     zpt = ", i32, i32" if qmac else ""
     body_args = "%a : i8, %b : i8, %za : i32, %zb : i32, %acc : i32" if qmac else "%a : i8, %b : i8, %acc : i32"
@@ -257,6 +257,28 @@ def gemmx_src(M, N, K, i8out, qmac, rescale, rp=(3, -4, 127, -128)):
         resc = "\n    dart.yield %g : !dart.stream<i32>"
     for n_, v_ in enumerate(rp):
         resc = resc.replace(f"RP{n_}", str(v_))
+    if bias and i8out and qmac:
+        # D8 = rescale(A*B + C): three generics fused in one streaming region
+        resc = resc.replace('"dart.generic"(%g)', '"dart.generic"(%h)')
+        tcb = f"memref<{M}x{N}xi32, #tsl.tsl<[{M // 8}, 8] -> ({64 * (N // 8)}, 8), [{N // 8}, 8] -> (64, 1)>>"
+        return f"""
+func.func @f(%A : memref<{M}x{K}xi8>, %B : memref<{K}x{N}xi8, strided<[1, {K}]>>, %C : memref<{M}x{N}xi8>, %zpa : i32, %zpb : i32, %Cb : {tcb}) {{
+  "dart.operation"(%A, %B, %Cb, %C) <{{patterns = [affine_map<(d0, d1, d2) -> (d0, d2)>, affine_map<(d0, d1, d2) -> (d2, d1)>, affine_map<(d0, d1, d2) -> (d0, d1)>, affine_map<(d0, d1, d2) -> (d0, d1)>], accelerator = "snax_gemmx", operandSegmentSizes = array<i32: 3, 1>}}> ({{
+  ^bb0(%s0 : !dart.stream<i8>, %s1 : !dart.stream<i8>, %s3 : !dart.stream<i32>, %s2 : !dart.stream<i8>):
+    %g = "dart.generic"(%s0, %s1, %zpa, %zpb) <{{library_call = "snax_gemmx"}}> ({{
+    ^bb1(%a : i8, %b : i8, %za : i32, %zb : i32, %acc : i32):
+      %m = kernel.qmac %a, %b zp_lhs : %za zp_rhs : %zb : i8, i8, i32, i32 -> i32
+      dart.yield %m : i32
+    }}) : (!dart.stream<i8>, !dart.stream<i8>, i32, i32) -> !dart.stream<i32>
+    %h = "dart.generic"(%g, %s3) <{{library_call = "snax_gemmx"}}> ({{
+    ^bb4(%p : i32, %q4 : i32, %o4 : i32):
+      %r4 = kernel.add %p, %q4 : i32, i32 -> i32
+      dart.yield %r4 : i32
+    }}) : (!dart.stream<i32>, !dart.stream<i32>) -> !dart.stream<i32>{resc}
+  }}) : (memref<{M}x{K}xi8>, memref<{K}x{N}xi8, strided<[1, {K}]>>, {tcb}, memref<{M}x{N}xi8>) -> ()
+  func.return
+}}
+"""
     return f"""
 func.func @f(%A : memref<{M}x{K}xi8>, %B : memref<{K}x{N}xi8, strided<[1, {K}]>>, %C : memref<{M}x{N}x{out_t}>, %zpa : i32, %zpb : i32) {{
   "dart.operation"(%A, %B, %C) <{{patterns = [affine_map<(d0, d1, d2) -> (d0, d2)>, affine_map<(d0, d1, d2) -> (d2, d1)>, affine_map<(d0, d1, d2) -> (d0, d1)>], accelerator = "snax_gemmx", operandSegmentSizes = array<i32: 2, 1>}}> ({{
@@ -280,7 +302,8 @@ def case_gemmx(case):
 
     M, N, K, i8out, qmac = case[:5]
     rp = case[5] if len(case) > 5 else (3, -4, 127, -128)
-    src = gemmx_src(M, N, K, i8out, qmac, i8out, rp)
+    bias = bool(case[6]) if len(case) > 6 else False
+    src = gemmx_src(M, N, K, i8out, qmac, i8out, rp, bias)
 
     def pipeline():
         main = xshim.make_main()
@@ -527,6 +550,8 @@ def run(chk):
     # rescale parameters: negative and extreme zero points / clamp bounds (every byte field of csr0 keeps to its byte)
     for rp in ((-5, 9, 127, -128), (-128, 127, 100, -100), (0, 0, 0, 0), (127, -128, -1, -2)):
         gcases.append((16, 16, 16, True, rnd.random() < 0.5, rp))
+    # D8 = rescale(A*B + C): the rescale is the third generic of the fused body
+    gcases += [(16, 16, 16, True, True, (23, -23, 100, -100), True), (8, 16, 8, True, True, (3, -4, 127, -128), True)]
     if not quick:
         gcases += [(a, b, c, o, q) for a in (8, 24) for b in (8, 32) for c in (8, 16, 64) for o in (False, True) for q in (False, True)]
     if only in (None, "gemmx"):
